@@ -5,6 +5,7 @@ import Tw.Gen.Spec_tw05
 import Tw.Gen.Spec_tw06
 import Tw.Gen.Spec_tw07
 import Tw.Gen.Spec_ddnet
+import Tw.Gen.GamenetMsg
 
 /-!
 # C14 — generated message and object codecs match the protocol descriptions
@@ -55,6 +56,37 @@ theorem tie_identifiers :
     idsOk Tw.Gen.Spec_tw05.spec = true ∧ idsOk Tw.Gen.Spec_tw06.spec = true ∧
     idsOk Tw.Gen.Spec_tw07.spec = true ∧ idsOk Tw.Gen.Spec_ddnet.spec = true := by
   decide +kernel
+
+/-- Tie to the generated Rust: the arms of `System::decode_msg`, `Game::decode_msg`,
+`SnapObj::decode_obj` and `Connless::decode_connless` of all four crates (extracted from the
+sources in order, with the values of the `pub const` identifiers they match on: ordinals, UUIDs,
+8-byte connless headers) are exactly the descriptions' messages / objects with their identifiers,
+each decoded by the struct of its name. -/
+theorem tie_dispatch_arms :
+    (dispatchOk Tw.Gen.Spec_tw05.rustSystem Tw.Gen.Spec_tw05.spec.system ∧
+     dispatchOk Tw.Gen.Spec_tw05.rustGame Tw.Gen.Spec_tw05.spec.game ∧
+     dispatchOk Tw.Gen.Spec_tw05.rustObjects Tw.Gen.Spec_tw05.spec.objects ∧
+     connlessDispatchOk Tw.Gen.Spec_tw05.rustConnless Tw.Gen.Spec_tw05.spec.connless) ∧
+    (dispatchOk Tw.Gen.Spec_tw06.rustSystem Tw.Gen.Spec_tw06.spec.system ∧
+     dispatchOk Tw.Gen.Spec_tw06.rustGame Tw.Gen.Spec_tw06.spec.game ∧
+     dispatchOk Tw.Gen.Spec_tw06.rustObjects Tw.Gen.Spec_tw06.spec.objects ∧
+     connlessDispatchOk Tw.Gen.Spec_tw06.rustConnless Tw.Gen.Spec_tw06.spec.connless) ∧
+    (dispatchOk Tw.Gen.Spec_tw07.rustSystem Tw.Gen.Spec_tw07.spec.system ∧
+     dispatchOk Tw.Gen.Spec_tw07.rustGame Tw.Gen.Spec_tw07.spec.game ∧
+     dispatchOk Tw.Gen.Spec_tw07.rustObjects Tw.Gen.Spec_tw07.spec.objects ∧
+     connlessDispatchOk Tw.Gen.Spec_tw07.rustConnless Tw.Gen.Spec_tw07.spec.connless) ∧
+    (dispatchOk Tw.Gen.Spec_ddnet.rustSystem Tw.Gen.Spec_ddnet.spec.system ∧
+     dispatchOk Tw.Gen.Spec_ddnet.rustGame Tw.Gen.Spec_ddnet.spec.game ∧
+     dispatchOk Tw.Gen.Spec_ddnet.rustObjects Tw.Gen.Spec_ddnet.spec.objects ∧
+     connlessDispatchOk Tw.Gen.Spec_ddnet.rustConnless Tw.Gen.Spec_ddnet.spec.connless) := by
+  decide +kernel
+
+/-- Tie to `gamenet/common/src/msg.rs`: the integer literals of `SystemOrGame::decode_id`
+(`id & 1 != 0`, `id >> 1`, `msg != 0`) and `encode_id` (`i != 0`, `=> 0`, `1 << 31`, `== 0`,
+`iid << 1`) are the ones `decodeId` / `encodeId` were written against. -/
+theorem tie_message_id_literals :
+    Tw.Gen.GamenetMsg.lits_decode_id = [1, 0, 1, 0] ∧
+    Tw.Gen.GamenetMsg.lits_encode_id = [0, 0, 1, 31, 0, 1] := by decide
 
 /-! ### Messages (system, game, connless): one statement for every description -/
 
